@@ -46,6 +46,8 @@ struct Gen {
     immediate: bool,
     qr: bool,
     dirty: bool,
+    /// successful restore_savepoint calls in the live write transaction
+    restores_in_txn: u32,
     // statistics
     stats: std::collections::BTreeMap<String, u64>,
     viol: Vec<String>,
@@ -146,6 +148,7 @@ impl Gen {
         self.immediate = true;
         self.qr = false;
         self.dirty = false;
+        self.restores_in_txn = 0;
         self.after("begin_write", Kind::BeginWrite);
     }
 
@@ -335,6 +338,10 @@ impl Gen {
             return;
         }
         let i = *self.r.pick(&cands);
+        self.restore_at(i);
+    }
+
+    fn restore_at(&mut self, i: usize) {
         let before = self.w.wtx.as_ref().unwrap().verif_snapshot();
         let mut t = self.w.wtx.take().unwrap();
         let (h, res, spid) = {
@@ -361,6 +368,10 @@ impl Gen {
                     .map(|(id, _)| World::handle_of_savepoint(*id))
                     .collect();
                 self.dirty = true;
+                self.restores_in_txn += 1;
+                if self.restores_in_txn == 2 {
+                    self.count("note_second_restore_in_one_transaction");
+                }
                 self.after(&format!("restore_savepoint {spid}"), Kind::Restore(h, dels));
             }
             Err(_) => {
@@ -432,8 +443,123 @@ impl Gen {
         }
     }
 
+    fn set_durability(&mut self, none: bool) {
+        let t = self.w.wtx.as_mut().unwrap();
+        let r = t.set_durability(if none { Durability::None } else { Durability::Immediate });
+        if r.is_ok() {
+            self.immediate = !none;
+        }
+        self.after(if none { "set_durability none" } else { "set_durability immediate" }, Kind::Nop);
+    }
+
+    /// Directed-random segment: a ladder of 2-4 savepoints, one per transaction, the commits between them mostly
+    /// non-durable (so that the pending-free records of the rolled-back commits live in memory only); then ONE write
+    /// transaction restores one to three of them -- newest to oldest (each one legal), oldest to newest (the later ones
+    /// were invalidated by the first) or in random order -- with table operations in between sometimes; then the
+    /// savepoints are released between further commits. Every call is observed and checked like any other.
+    fn ladder(&mut self) {
+        if self.w.wtx.is_some() {
+            self.commit();
+        }
+        self.count("note_savepoint_ladders");
+        let rungs = self.r.range(2, 4);
+        let all_ephemeral = self.r.chance(2, 3);
+        let mut rung_handles: Vec<u64> = vec![];
+        for _ in 0..rungs {
+            if self.dead {
+                return;
+            }
+            self.begin_write();
+            let persistent = !all_ephemeral && self.r.chance(1, 2);
+            let n0 = self.w.pins.len();
+            self.savepoint(persistent);
+            if self.w.pins.len() > n0 {
+                rung_handles.push(self.w.pins.last().unwrap().handle);
+            }
+            if !persistent && self.r.chance(3, 4) {
+                self.set_durability(true);
+            }
+            for _ in 0..self.r.range(1, 3) {
+                self.table_op();
+            }
+            if self.r.chance(1, 6) {
+                self.begin_read();
+            }
+            self.commit();
+        }
+        if self.dead {
+            return;
+        }
+        self.begin_write();
+        if self.r.chance(1, 3) {
+            self.set_durability(true);
+        }
+        let mut order: Vec<u64> = rung_handles.clone();
+        match self.r.below(4) {
+            0 | 1 => order.reverse(),
+            2 => {}
+            _ => {
+                for i in (1..order.len()).rev() {
+                    let j = self.r.below(i as u64 + 1) as usize;
+                    order.swap(i, j);
+                }
+            }
+        }
+        let nrest = self.r.range(1, 3) as usize;
+        if nrest < order.len() && self.r.chance(1, 2) {
+            // not always starting from the newest / oldest one
+            order.remove(0);
+        }
+        for h in order.into_iter().take(nrest) {
+            if self.dead {
+                return;
+            }
+            if self.r.chance(1, 4) {
+                self.table_op();
+            }
+            if let Some(i) = self.w.pins.iter().position(|p| p.handle == h) {
+                self.restore_at(i);
+            }
+        }
+        if self.dead {
+            return;
+        }
+        if self.r.chance(1, 3) {
+            self.table_op();
+        }
+        if self.r.chance(1, 8) {
+            self.abort(false);
+        } else {
+            self.commit();
+        }
+        // release what pins pages, with commits in between
+        for _ in 0..self.r.range(2, 6) {
+            if self.dead {
+                return;
+            }
+            match self.r.below(3) {
+                0 => {
+                    self.begin_write();
+                    if self.r.chance(1, 3) {
+                        self.set_durability(true);
+                    }
+                    if self.r.chance(1, 2) {
+                        self.table_op();
+                    }
+                    self.commit();
+                }
+                _ => self.drop_pin(),
+            }
+        }
+    }
+
     fn step_once(&mut self) {
         let x = self.r.below(100);
+        // a transaction that has restored a savepoint sometimes restores another one
+        if self.w.wtx.is_some() && self.restores_in_txn > 0 && self.restores_in_txn < 3 && self.r.chance(1, 4) {
+            self.restore();
+            return;
+        }
         if self.w.wtx.is_none() {
             match x {
                 0..=54 => self.begin_write(),
@@ -442,6 +568,7 @@ impl Gen {
                 82..=87 => self.reopen(),
                 88..=91 => self.compact(),
                 92..=95 => self.check_integrity(),
+                96..=97 => self.ladder(),
                 _ => self.begin_write(),
             }
         } else {
@@ -452,12 +579,7 @@ impl Gen {
                 67..=68 => self.abort(true),
                 69..=75 => {
                     let none = self.r.chance(2, 3);
-                    let t = self.w.wtx.as_mut().unwrap();
-                    let r = t.set_durability(if none { Durability::None } else { Durability::Immediate });
-                    if r.is_ok() {
-                        self.immediate = !none;
-                    }
-                    self.after(if none { "set_durability none" } else { "set_durability immediate" }, Kind::Nop);
+                    self.set_durability(none);
                 }
                 76..=77 => {
                     let on = self.r.chance(1, 2);
@@ -585,11 +707,20 @@ fn run_history(g: &mut Gen, churn: bool, steps: usize, plateau: &mut Vec<Vec<u64
         }
         plateau.push(series);
     } else {
-        for _ in 0..steps {
+        // every fifth history is built around savepoint ladders, with random calls between them
+        let ladders = hist % 5 == 2;
+        let mut k = 0;
+        while k < steps {
             if g.dead {
                 break;
             }
-            g.step_once();
+            if ladders && k % 12 == 4 {
+                g.ladder();
+                k += 8;
+            } else {
+                g.step_once();
+                k += 1;
+            }
         }
         g.quiesce();
     }
@@ -629,6 +760,7 @@ fn main() {
             immediate: true,
             qr: false,
             dirty: false,
+            restores_in_txn: 0,
             stats: Default::default(),
             viol: vec![],
             max_regions_touched: 0,
